@@ -368,25 +368,43 @@ def run_one(spec, rec, workroot, shared_dicts):
     random.seed(spec.get("seed", 0))
     Faker.seed(spec.get("seed", 0))
     res = {"rid": spec["rid"], "outcome": None, "error": None, "rows": [], "exc": None}
+    # caller-owned arguments: an embedding application may hand the SAME objects to consecutive calls
     if spec.get("po_key") is not None:
         po = shared_dicts.setdefault(spec["po_key"], dict(spec.get("plugin_options") or {}))
     else:
         po = dict(spec["plugin_options"]) if spec.get("plugin_options") is not None else None
     po_before = dict(po) if po is not None else None
+    if spec.get("uo_key") is not None:
+        uo = shared_dicts.setdefault("uo:" + spec["uo_key"], dict(spec.get("options") or {}))
+    else:
+        uo = dict(spec.get("options") or {})
+    passthrough = shared_dicts.setdefault("passthrough", [])
+    dburls = shared_dicts.setdefault("dburls", [])
+    out = io.StringIO()
+    output_files = [out]
+    owned = {"user_options": uo, "update_passthrough_fields": passthrough, "dburls": dburls, "output_files": output_files}
+
+    def arg_fp(v):
+        if isinstance(v, dict):
+            return json.dumps(v, sort_keys=True, default=repr)
+        return json.dumps([x if isinstance(x, (int, str, bool, type(None))) else "obj@%d" % id(x) for x in v])
+
+    owned_before = {k: arg_fp(v) for k, v in owned.items()}
+    res["user_options_before"] = json.loads(json.dumps(uo, default=repr))
     path = os.path.join(workroot, spec["dir"], "recipe.yml") if spec.get("dir") else None
     tgt = spec.get("target")
     reps = spec.get("reps")
     cont_in = io.StringIO(spec["continuation"]) if spec.get("continuation") else None
     try:
         if spec.get("api") == "generate_data":
-            out = io.StringIO()
             kw = {}
             if tgt:
                 kw["target_number"] = (tgt[1], tgt[0])
             elif reps:
                 kw["target_number"] = (reps, COUNT_REPS)
-            generate_data(path if path else io.StringIO(spec["recipe"]), user_options=spec.get("options") or {},
-                          output_format="json", output_file=out, plugin_options=po, continuation_file=cont_in, **kw)
+            generate_data(path if path else io.StringIO(spec["recipe"]), user_options=uo, dburls=dburls,
+                          output_format="json", output_files=output_files, plugin_options=po, continuation_file=cont_in,
+                          update_passthrough_fields=passthrough, **kw)
             res["rows"] = json_rows(out.getvalue())
             res["outcome"] = "ok"
         else:
@@ -397,8 +415,8 @@ def run_one(spec, rec, workroot, shared_dicts):
             src = open(path) if path else io.StringIO(spec["recipe"])
             try:
                 try:
-                    generate(src, dict(spec.get("options") or {}), stream, parent_application=app,
-                             continuation_file=cont_in, plugin_options=po)
+                    generate(src, uo, stream, parent_application=app,
+                             continuation_file=cont_in, plugin_options=po, update_passthrough_fields=passthrough)
                     res["outcome"] = "ok"
                 finally:
                     res["rows"] = [[t, [[k, v] for k, v in fs]] for t, fs in stream.rows]
@@ -411,6 +429,8 @@ def run_one(spec, rec, workroot, shared_dicts):
         res["exc"] = type(e).__name__
         res["error"] = f"{type(e).__name__}: {str(e)[:200]}"
     res["ops"] = rec.ops
+    owned_after = {k: arg_fp(v) for k, v in owned.items()}
+    res["args_changed"] = {k: [owned_before[k], owned_after[k]] for k in owned if owned_before[k] != owned_after[k]}
     if po is not None:
         res["po_before"] = po_before
         res["po_after"] = {k: (v if isinstance(v, (int, str, bool, type(None))) else repr(v)) for k, v in po.items()}
@@ -596,6 +616,7 @@ def gen_l2(rng):
     rc = g.recipe()
     k = rng.choice([1, 1, 2, 3])
     return finish({"kind": "l2", "recipe": recipes.recipe_yaml(rc), "reps": k, "l2": rc, "det": True,
+                   "options": ({"zz_unused": 1} if rng.random() < 0.5 else {}),
                    "api": rng.choice(["generate", "generate", "generate", "generate_data"])})
 
 
@@ -963,6 +984,38 @@ def gen_continuation(rng, cells_unused=None):
                    "features": ["continuation", "just_once"]})
 
 
+OPT_NAMES = ["alpha", "beta", "gamma"]
+
+
+def opt_group(rng, n=None):
+    """The `user_options` counterpart of `po_pair`: 2-4 DIFFERENT recipes that declare overlapping option names with
+    different defaults, run by an application that passes ONE non-empty `user_options` dict to all of them (some
+    names supplied, some not, one key no recipe declares)."""
+    key = "uo" + str(rng.randint(0, 99999))
+    supplied = {"zeta": rng.randint(1, 9)}
+    for nme in OPT_NAMES:
+        if rng.random() < 0.3:
+            supplied[nme] = rng.randint(100, 199)
+    out = []
+    for _ in range(n or rng.randint(2, 4)):
+        names = [x for x in OPT_NAMES if rng.random() < 0.75] or [rng.choice(OPT_NAMES)]
+        decls = []
+        text = "- snowfakery_version: 3\n"
+        for nme in names:
+            if rng.random() < 0.08:
+                decls.append([nme, None])
+                text += f"- option: {nme}\n"
+            else:
+                d = rng.randint(1, 60)
+                decls.append([nme, d])
+                text += f"- option: {nme}\n  default: {d}\n"
+        text += "- object: O\n  count: 2\n  fields:\n" + "".join(f"    o_{nme}: ${{{{{nme}}}}}\n" for nme in names)
+        out.append(finish({"kind": "opt", "recipe": text, "reps": 1, "det": True, "options": dict(supplied), "uo_key": key,
+                           "decls": decls, "api": rng.choice(["generate", "generate", "generate_data"]),
+                           "features": ["shared_user_options"]}))
+    return out
+
+
 def po_pair(rng):
     """D19c family: the caller reuses ONE plugin_options dict for two calls."""
     key = "shared" + str(rng.randint(0, 999))
@@ -1015,6 +1068,14 @@ def fixed_sequences():
     out.append([gen_plugin(rng, alias=True), gen_plugin(rng, alias=True)])
     # D19c
     out.append(po_pair(rng))
+    # caller-owned user_options: one non-empty dict, different recipes declaring the same option with different defaults
+    uo = {"zeta": 4}
+    a = finish({"kind": "opt", "recipe": "- snowfakery_version: 3\n- option: alpha\n  default: 1\n- object: O\n  fields:\n    o_alpha: ${{alpha}}\n",
+                "reps": 1, "det": True, "options": dict(uo), "uo_key": "fixed", "decls": [["alpha", 1]], "features": ["shared_user_options"]})
+    b = finish({"kind": "opt", "recipe": "- snowfakery_version: 3\n- option: alpha\n  default: 2\n- option: beta\n  default: 5\n- object: O\n  fields:\n    o_alpha: ${{alpha}}\n    o_beta: ${{beta}}\n",
+                "reps": 1, "det": True, "options": dict(uo), "uo_key": "fixed", "decls": [["alpha", 2], ["beta", 5]], "features": ["shared_user_options"]})
+    out.append([a, b])
+    out.append(opt_group(rng, 3))
     # the seeded-mutation shape: same relative URL text, different directories, both kinds
     for _ in range(2):
         a, b = gen_dataset(rng), gen_dataset(rng)
@@ -1133,6 +1194,7 @@ def model_check(rep, case, seq, res):
     res["_explained_alias"] = sorted(explained_alias)
     ok = datetime_view_check(rep, case, seq, res, val) and ok
     ok = dialect_check(rep, case, seq, res) and ok
+    ok = options_check(rep, case, seq, res) and ok
     rep.traces_validated += 1
     return ok
 
@@ -1178,6 +1240,35 @@ def datetime_view_check(rep, case, seq, res, replay):
         rep.count("datetime-view-compared")
         if st != "ok" or val != _enc_row_datetime(real):
             rep.disagreement("c19.datetime:view", dict(case, run=i, field=fname), val, real)
+            ok = False
+    return ok
+
+
+def options_check(rep, case, seq, res):
+    """one `user_options` dict passed to several generate() calls of recipes with overlapping option declarations: every
+    run resolves its options as the model does with read-only access (`runShared (generateOptions false)`)."""
+    if not seq or any(s["kind"] != "opt" for s in seq) or len({s.get("uo_key") for s in seq}) != 1:
+        return True
+    user = sorted((k, v) for k, v in (seq[0].get("options") or {}).items())
+    req = {"m": "c19.options", "writesBack": False, "user": [list(e) for e in user], "calls": [s["decls"] for s in seq]}
+    ((st, val),) = common.model_batch([req])
+    rep.count("options-compared")
+    if st != "ok":
+        rep.disagreement("c19.options:driver", case, val, None)
+        return False
+    ok = True
+    for i, (spec, r, m) in enumerate(zip(seq, res["runs"], val)):
+        if m is None:
+            observed = None if r["outcome"] != "ok" else "ok"
+            want = None
+        else:
+            want = {k: v for k, v in m if any(k == d[0] for d in spec["decls"])}
+            if r["outcome"] != "ok" or not r["rows"]:
+                observed = r["outcome"]
+            else:
+                observed = {k[2:]: v for k, v in r["rows"][0][1] if k.startswith("o_")}
+        if observed != want:
+            rep.disagreement("c19.options", dict(case, run=i), want, observed)
             ok = False
     return ok
 
@@ -1248,6 +1339,13 @@ def check_sequence(rep, seq, res, baselines, known):
             sig = "C19:cell-changed-by-run:" + bad[0].split(":", 1)[0].replace("ext", "external") + ":" + bad[0].split(":", 1)[1]
             rep.violation(sig, f"run {i} ({spec['kind']}, {r['outcome']}) changed process state outside the allow-list: {bad}",
                           pcase, None, {c: r["changes"][c] for c in bad})
+        # --- every caller-owned mutable argument is deep-equal before and after the call
+        if r.get("args_changed"):
+            names = sorted(r["args_changed"])
+            rep.violation("C19:caller-argument-mutated",
+                          f"run {i} ({spec['kind']}, {r['outcome']}) changed caller-owned argument(s) {names}: "
+                          + "; ".join(f"{k}: {v[0]} -> {v[1]}" for k, v in sorted(r["args_changed"].items())),
+                          pcase, {k: v[0] for k, v in r["args_changed"].items()}, {k: v[1] for k, v in r["args_changed"].items()})
         # --- the caller's plugin_options dict
         if r.get("po_before") is not None and r["po_after"] != r["po_before"]:
             rep.violation("C19:plugin-options-dict-mutated",
@@ -1335,6 +1433,15 @@ def run(ctx, rep, findings):
         sequences.append([rng.choice(alias_pool + pool[:5]) for _ in range(rng.randint(2, 3))])
     for _ in range(ctx.scale(2, 10)):
         sequences.append(po_pair(rng))
+    # shared user_options: dedicated sequences, and members of further groups mixed into the pool (interleaved with other kinds)
+    for _ in range(ctx.scale(12, 120)):
+        g = opt_group(rng)
+        sequences.append(g)
+        if rng.random() < 0.5:
+            other = [rng.choice(pool) for _ in range(rng.randint(1, 2))]
+            mixed = g + other
+            rng.shuffle(mixed)
+            sequences.append(mixed)
     # orderings: every third sequence also runs reversed
     sequences += [list(reversed(s)) for s in sequences[len(fixed_sequences())::3]]
     chunk = 120 if ctx.tier == "quick" else 250
